@@ -321,7 +321,7 @@ func blockOnListChangeWorker(
 
 	verifPoint("blk:before-register", ctx.cs.id, "")
 	ws := blockFn()
-	defer ctx.dsc.ds.leaveListBlock(ws)
+	defer func() { ctx.dsc.ds.leaveListBlock(ws) }()
 	verifPoint("blk:after-register", ctx.cs.id, "")
 
 	// with notification registered, try operation again immediately
@@ -372,6 +372,16 @@ func blockOnListChangeWorker(
 		}
 		verifPoint("blk:retry-failed", ctx.cs.id, "")
 		// a different client obtained the list element before this client could, so try again
+
+		// The wake-up took this client out of the wait queues: get back in line, or no
+		// later push would ever wake it. An element pushed in the meantime is picked up
+		// by trying once more after registering.
+		ctx.dsc.ds.leaveListBlock(ws)
+		ws = blockFn()
+		output = op()
+		if output.data != nil {
+			return
+		}
 	}
 }
 
